@@ -30,6 +30,11 @@ func metadataOf(r *lib.Rng, i int) []byte {
 	case 2:
 		return []byte{0}
 	case 3:
+		// long metadata; every other time around the 16-bit boundary of its
+		// 32-bit length field in the message framing
+		if (i/6)%2 == 0 {
+			return r.Bytes(lib.Pick(r, 65535, 65536, 65537, 65536+8, 3*65536))
+		}
 		return r.Bytes(1000 + r.Intn(100))
 	case 4:
 		return append([]byte("a\x00b"), r.Bytes(r.Intn(5))...)
@@ -40,7 +45,7 @@ func metadataOf(r *lib.Rng, i int) []byte {
 
 func TestVerifPartiallyBlindRSA(t *testing.T) {
 	lib.Mandatory("pb:runs", "pb:final-signature-valid", "pb:equals-reference-signature", "pb:blind-independent", "pb:finalize-altered-refused",
-		"pb:signer-refused", "pb:random-salt-run-valid", "pb:metadata-empty", "pb:metadata-long", "pb:wrong-metadata-rejected", "pb:plain-key-refused")
+		"pb:signer-refused", "pb:random-salt-run-valid", "pb:metadata-empty", "pb:metadata-long", "pb:metadata>=2^16", "pb:wrong-metadata-rejected", "pb:plain-key-refused")
 	var cases []pbCase
 	for ki, name := range safeKeyNames {
 		k := loadKey(t, name)
@@ -93,6 +98,9 @@ func pbOne(c pbCase) {
 	}
 	if len(info) >= 1000 {
 		lib.Count("pb:metadata-long")
+	}
+	if len(info) >= 65536 {
+		lib.Count("pb:metadata>=2^16")
 	}
 
 	// each case owns its verifier: the verifier keeps one hash.Hash instance
